@@ -4,7 +4,7 @@
    codec consumes every well-framed PDU under any fragmentation. *)
 From Coq Require Import List Arith NArith Bool Lia ZifyBool ZifyNat ZifyN.
 From RB Require Import Base.Val Model.Rpki Model.RtrClient Spec.Rfc6811 Spec.RtrSpec
-  Proofs.RpkiTrie Proofs.Rpki Proofs.RtrCodec.
+  Spec.WireSpec Proofs.RpkiTrie Proofs.Rpki Proofs.RtrCodec.
 Import ListNotations.
 Open Scope N_scope.
 
@@ -30,10 +30,10 @@ Lemma cache_of_elt : forall c r, cache_of (elt_of c r) = c.
 Proof. intros c [[n mx] a]. reflexivity. Qed.
 
 (* ---- PDU-level runs *)
-Fixpoint run_msgs (fx : fixes) (c : N) (ms : list msg) (st : cstate) (t : rtab) : cstate * rtab :=
+Fixpoint run_pdus (fx : fixes) (c : N) (ms : list msg) (st : cstate) (t : rtab) : cstate * rtab :=
   match ms with
   | [] => (st, t)
-  | m :: rest => let '(st', t', _) := on_msg fx c st t m in run_msgs fx c rest st' t'
+  | m :: rest => let '(st', t', _) := on_msg fx c st t m in run_pdus fx c rest st' t'
   end.
 
 Definition v_recs (c : N) (v : list (net * roa)) (r : rec) : Prop :=
@@ -157,15 +157,15 @@ Proof.
   induction ps as [|p ps IH]; intros F G H r; [apply H|]. destruct p as [x|x| |]; cbn [fold_cache]; apply IH; intro y; rewrite ?H; tauto.
 Qed.
 
-Lemma run_msgs_fold : forall ms c st t F,
+Lemma run_pdus_fold : forall ms c st t F,
   wf_tab t -> v_ok c st -> fold_inv c st t F -> conforming_from (c_eod st) (map view ms) ->
-  let '(st', t') := run_msgs fixed c ms st t in
+  let '(st', t') := run_pdus fixed c ms st t in
   fold_inv c st' t' (fold_cache (map view ms) F) /\ wf_tab t' /\ v_ok c st'
   /\ (c_eod st' = true <-> c_eod st = true \/ seen_eod (map view ms)).
 Proof.
   induction ms as [|m ms IH]; intros c st t F W V I C.
   - cbn. split; [exact I|]. split; [exact W|]. split; [exact V|]. unfold seen_eod. cbn. tauto.
-  - cbn [run_msgs map]. destruct (on_msg fixed c st t m) as [[st1 t1] out] eqn:E.
+  - cbn [run_pdus map]. destruct (on_msg fixed c st t m) as [[st1 t1] out] eqn:E.
     destruct (on_msg_inv fixed c st t m st1 t1 out W V E) as [W1 [V1 _]].
     assert (VO : view_ok (c_eod st) (view m)).
     { destruct C as [C|C]; [destruct (view m); cbn; auto|]. cbn [map conforming] in C. destruct (view m); cbn; auto; try contradiction. }
@@ -174,7 +174,7 @@ Proof.
     { rewrite E1. destruct C as [C|C]; [left; rewrite C; reflexivity|]. cbn [map conforming] in C.
       destruct (view m); try (right; exact C); try contradiction. left. apply orb_true_r. }
     specialize (IH c st1 t1 (fold_step (view m) F) W1 V1 I1 C1).
-    destruct (run_msgs fixed c ms st1 t1) as [st' t']. destruct IH as [I' [W' [V' S']]].
+    destruct (run_pdus fixed c ms st1 t1) as [st' t']. destruct IH as [I' [W' [V' S']]].
     split; [rewrite fold_cache_step; exact I'|]. split; [exact W'|]. split; [exact V'|].
     rewrite S', E1. unfold seen_eod. cbn [In]. rewrite orb_true_iff.
     destruct (view m); split; intro H; try tauto; try (destruct H as [[H|H]|H]; try discriminate; tauto);
@@ -187,85 +187,60 @@ Qed.
    responses, whatever the table held before *)
 Theorem C13_installed_eq_fold_at_eod : forall (c : N) (ms : list msg) (t0 : rtab),
   wf_tab t0 -> conforming (map view ms) ->
-  let '(st, t) := run_msgs fixed c ms c_init t0 in
+  let '(st, t) := run_pdus fixed c ms c_init t0 in
   (c_eod st = true <-> seen_eod (map view ms))
   /\ (c_eod st = true -> forall r, installed c t r <-> announced (map view ms) r).
 Proof.
   intros c ms t0 W C.
-  pose proof (run_msgs_fold ms c c_init t0 (fun _ => False) W (v_ok_init c)) as H.
+  pose proof (run_pdus_fold ms c c_init t0 (fun _ => False) W (v_ok_init c)) as H.
   assert (I0 : fold_inv c c_init t0 (fun _ => False)) by (unfold fold_inv, v_recs; cbn; tauto).
   specialize (H I0 (or_intror C)).
-  destruct (run_msgs fixed c ms c_init t0) as [st t]. destruct H as [I [_ [_ S]]].
+  destruct (run_pdus fixed c ms c_init t0) as [st t]. destruct H as [I [_ [_ S]]].
   split; [rewrite S; cbn; split; [intros [H|H]; [discriminate|exact H]|intro H; right; exact H]|].
   intros E r. unfold fold_inv in I. rewrite E in I. apply I.
 Qed.
 
 (* other caches' VRPs are untouched by any PDU sequence, fixed or not *)
-Lemma run_msgs_iso : forall fx ms c st t, wf_tab t -> v_ok c st ->
-  let '(st', t') := run_msgs fx c ms st t in
+Lemma run_pdus_iso : forall fx ms c st t, wf_tab t -> v_ok c st ->
+  let '(st', t') := run_pdus fx c ms st t in
   wf_tab t' /\ v_ok c st' /\ forall x, cache_of x <> c -> (tmem t' x <-> tmem t x).
 Proof.
   induction ms as [|m ms IH]; intros c st t W V; [cbn; split; [exact W|split; [exact V|tauto]]|].
-  cbn [run_msgs]. destruct (on_msg fx c st t m) as [[st1 t1] out] eqn:E.
+  cbn [run_pdus]. destruct (on_msg fx c st t m) as [[st1 t1] out] eqn:E.
   destruct (on_msg_inv fx c st t m st1 t1 out W V E) as [W1 [V1 I1]].
-  specialize (IH c st1 t1 W1 V1). destruct (run_msgs fx c ms st1 t1) as [st' t']. destruct IH as [W' [V' I']].
+  specialize (IH c st1 t1 W1 V1). destruct (run_pdus fx c ms st1 t1) as [st' t']. destruct IH as [W' [V' I']].
   split; [exact W'|split; [exact V'|]]. intros x Hx. rewrite I', I1 by exact Hx. reflexivity.
 Qed.
 
 (* ======================================================================= *)
-(* From decoded PDUs to the byte stream: the Framed loop of the model runs   *)
-(* on_msg over exactly the PDUs the buffer delivers                          *)
+(* From decoded PDUs to the byte stream: one Framed drain runs the PDU step  *)
+(* function over exactly the messages the codec delivered                    *)
 
-Lemma on_msg_with_buf : forall fx c st t m b,
-  on_msg fx c (with_buf st b) t m
-  = let '(st', t', o) := on_msg fx c st t m in (with_buf st' b, t', o).
+Lemma model_run_msgs : forall fx c ms st t sent,
+  exists out, RtrClient.run_msgs fx c ms st t sent
+              = (fst (run_pdus fx c ms st t), snd (run_pdus fx c ms st t), out).
 Proof.
-  intros fx c st t m b.
-  destruct m as [sid serial|sid serial| |sid|n flags mx asn|sid serial a b0 d| |code]; cbn [on_msg with_buf c_eod c_serial c_sid c_v c_eod_count]; try reflexivity.
-  - destruct (c_eod st && negb (serial =? c_serial st)); reflexivity.
-  - destruct (0 <? N.land flags 1); destruct (c_eod st); reflexivity.
-  - destruct (fx_eod fx); [destruct (c_eod st)|]; reflexivity.
+  induction ms as [|m ms IH]; intros st t sent; [exists sent; reflexivity|].
+  cbn [RtrClient.run_msgs run_pdus]. destruct (on_msg fx c st t m) as [[st1 t1] o].
+  apply IH.
 Qed.
 
-Lemma run_msgs_with_buf : forall fx c ms st t b,
-  run_msgs fx c ms (with_buf st b) t = let '(st', t') := run_msgs fx c ms st t in (with_buf st' b, t').
+Theorem apply_evs_runs_pdus : forall fx c evs st t sent,
+  exists out, apply_evs fx c evs st t sent
+    = (fst (run_pdus fx c (map of_rtr (Stream.msgs_of evs)) st t),
+       snd (run_pdus fx c (map of_rtr (Stream.msgs_of evs)) st t), out,
+       match Stream.err_of evs with Some _ => true | None => false end).
 Proof.
-  induction ms as [|m ms IH]; intros st t b; [reflexivity|].
-  cbn [run_msgs]. rewrite on_msg_with_buf. destruct (on_msg fx c st t m) as [[st1 t1] o]. apply IH.
-Qed.
-
-Lemma with_buf_idem : forall st b b', with_buf (with_buf st b) b' = with_buf st b'.
-Proof. reflexivity. Qed.
-
-Theorem drain_runs_parsed : forall fx c buf ms r, parses fx buf ms r ->
-  forall fuel st t sent, c_buf st = buf -> (length ms < fuel)%nat ->
-  exists out, drain fx fuel c st t sent
-              = (with_buf (fst (run_msgs fx c ms st t)) r, snd (run_msgs fx c ms st t), out).
-Proof.
-  intros fx c buf ms r P. induction P as [buf rest D|buf m rest ms r D P IH]; intros fuel st t sent Hb Hf.
-  - destruct fuel; [cbn in Hf; lia|]. cbn [drain]. rewrite Hb, D. exists sent. reflexivity.
-  - destruct fuel; [cbn in Hf; lia|]. cbn [drain run_msgs]. rewrite Hb, D.
-    rewrite on_msg_with_buf. destruct (on_msg fx c st t m) as [[st1 t1] o] eqn:E.
-    destruct (IH fuel (with_buf st1 rest) t1 (sent ++ o) eq_refl ltac:(cbn [length] in Hf; lia)) as [out H].
-    exists out. rewrite H. rewrite run_msgs_with_buf. destruct (run_msgs fx c ms st1 t1) as [st2 t2]. reflexivity.
+  intros fx c evs st t sent. unfold apply_evs.
+  destruct (model_run_msgs fx c (map of_rtr (Stream.msgs_of evs)) st t sent) as [out H].
+  exists out. rewrite H. reflexivity.
 Qed.
 
 (* ======================================================================= *)
 (* The system of clients: isolation and cleanup                             *)
 
-Lemma drain_inv : forall fx fuel c st t sent st' t' out,
-  wf_tab t -> v_ok c st -> drain fx fuel c st t sent = (st', t', out) ->
-  wf_tab t' /\ v_ok c st' /\ forall x, cache_of x <> c -> (tmem t' x <-> tmem t x).
-Proof.
-  induction fuel as [|fuel IH]; intros c st t sent st' t' out W V H.
-  - cbn in H. inversion H; subst. split; [exact W|split; [exact V|tauto]].
-  - cbn [drain] in H. destruct (decode fx (length (c_buf st)) (c_buf st)) as [[m|] rest].
-    + destruct (on_msg fx c (with_buf st rest) t m) as [[st1 t1] o] eqn:E.
-      destruct (on_msg_inv fx c (with_buf st rest) t m st1 t1 o W V E) as [W1 [V1 I1]].
-      destruct (IH c st1 t1 (sent ++ o) st' t' out W1 V1 H) as [W' [V' I']].
-      split; [exact W'|split; [exact V'|]]. intros x Hx. rewrite I', I1 by exact Hx. reflexivity.
-    + inversion H; subst. split; [exact W|split; [exact V|tauto]].
-Qed.
+Lemma with_buf_v_ok : forall c st b, v_ok c st -> v_ok c (with_buf st b).
+Proof. intros c st b V. exact V. Qed.
 
 Lemma client_event_inv : forall fx c st t e st' t' out,
   wf_tab t -> v_ok c st -> client_event fx c st t e = (st', t', out) ->
@@ -273,11 +248,24 @@ Lemma client_event_inv : forall fx c st t e st' t' out,
 Proof.
   intros fx c st t e st' t' out W V H. unfold client_event in H.
   destruct (c_done st); [inversion H; subst; split; [exact W|split; [exact V|tauto]]|].
+  assert (FIN : forall st0 t0, wf_tab t0 -> v_ok c st0 ->
+            (forall x, cache_of x <> c -> (tmem t0 x <-> tmem t x)) ->
+            let '(st1, t1) := finish_session c st0 t0 in
+            wf_tab t1 /\ v_ok c st1 /\ forall x, cache_of x <> c -> (tmem t1 x <-> tmem t x)).
+  { intros st0 t0 W0 V0 I0. unfold finish_session. split; [apply drop_wf; exact W0|]. split; [exact V0|].
+    intros x Hx. rewrite drop_spec by exact W0. rewrite I0 by exact Hx. tauto. }
   destruct e as [c0 bytes|c0|c0|c0].
   - destruct (c_open st); [|inversion H; subst; split; [exact W|split; [exact V|tauto]]].
-    destruct (drain fx (S (length (c_buf (with_buf st (c_buf st ++ bytes))))) c (with_buf st (c_buf st ++ bytes)) t []) as [[st2 t2] sent] eqn:D.
-    destruct (drain_inv fx _ c (with_buf st (c_buf st ++ bytes)) t [] st2 t2 sent W V D) as [W2 [V2 I2]].
-    unfold fire_permit in H. destruct (c_permit st2 && c_eod st2); inversion H; subst; (split; [exact W2|split; [exact V2|exact I2]]).
+    destruct (Stream.drain (codec fx) (S (length (c_buf st ++ bytes))) (c_buf st ++ bytes)) as [[evs ds]|].
+    + destruct (apply_evs_runs_pdus fx c evs st t []) as [o E]. rewrite E in H.
+      pose proof (run_pdus_iso fx (map of_rtr (Stream.msgs_of evs)) c st t W V) as R.
+      destruct (run_pdus fx c (map of_rtr (Stream.msgs_of evs)) st t) as [st2 t2]. cbn [fst snd] in H.
+      destruct R as [W2 [V2 I2]].
+      destruct (match Stream.err_of evs with Some _ => true | None => false end).
+      * specialize (FIN st2 t2 W2 V2 I2). destruct (finish_session c st2 t2) as [st3 t3]. inversion H; subst. exact FIN.
+      * unfold fire_permit in H.
+        destruct (c_permit (with_buf st2 _) && c_eod (with_buf st2 _)); inversion H; subst; (split; [exact W2|split; [exact V2|exact I2]]).
+    + specialize (FIN st t W V (fun x _ => iff_refl _)). destruct (finish_session c st t) as [st3 t3]. inversion H; subst. exact FIN.
   - unfold fire_permit in H. cbn [with_permit c_permit c_eod] in H.
     destruct (true && c_eod st); inversion H; subst; (split; [exact W|split; [exact V|tauto]]).
   - unfold finish_session in H. inversion H; subst. split; [apply drop_wf; exact W|]. split; [exact V|].
@@ -357,7 +345,7 @@ Definition refute_msgs : list msg :=
 
 Lemma C13_installed_eq_fold_pre_refuted :
   conforming (map view refute_msgs)
-  /\ let '(st, t) := run_msgs prefix_code 0 refute_msgs c_init rtab_new in
+  /\ let '(st, t) := run_pdus prefix_code 0 refute_msgs c_init rtab_new in
      c_eod st = true
      /\ announced (map view refute_msgs) (n4' 10 2 0 0 16, 16, 65003)
      /\ ~ installed 0 t (n4' 10 2 0 0 16, 16, 65003)
@@ -365,8 +353,8 @@ Lemma C13_installed_eq_fold_pre_refuted :
      /\ installed 0 t (n4' 10 1 0 0 16, 16, 65002).
 Proof.
   split; [cbn; exact I|].
-  cbn [run_msgs refute_msgs].
-  vm_compute run_msgs. cbv beta iota.
+  cbn [run_pdus refute_msgs].
+  vm_compute run_pdus. cbv beta iota.
   split; [reflexivity|].
   split; [cbn; split; [discriminate|left; reflexivity]|].
   split.
